@@ -2,6 +2,7 @@ package variable
 
 import (
 	"fmt"
+	"math"
 	"strconv"
 )
 
@@ -40,6 +41,10 @@ func (v *Value) ToString() string {
 		n := *v.Number
 		if n == float64(int(n)) {
 			return strconv.Itoa(int(n))
+		}
+		if n == math.Trunc(n) && !math.IsInf(n, 0) {
+			// an integer outside the range of int: still no exponent nor decimal point
+			return strconv.FormatFloat(n, 'f', -1, 64)
 		}
 		return fmt.Sprint(n)
 	case v.Boolean != nil:
